@@ -15,6 +15,7 @@
  *                                       n = 0: one value, 1: spline of sigma_nf, 2: splines of both
  *   S <h>                               vnacal_new_solve
  *   F <h>                               vnacal_new_free
+ *   V <h>                               (C side only, one line "D ...") the solved error terms of the handle: values, finite or not
  *   end                                 delete the user parameters, vnacal_free (tracked)
  * Before every op a forked child runs the same op without fault and prints the argument class the model
  * needs ("I ..."); then the op runs with the requested fault and prints
@@ -24,6 +25,7 @@
 #include "archdep.h"
 #include <complex.h>
 #include <errno.h>
+#include <math.h>
 #include <stdio.h>
 #include <stdlib.h>
 #include <string.h>
@@ -237,7 +239,7 @@ static int run_op(const char *op, char **tok, int ntok, long k, int info, int *p
 	*perrno = errno;
 	verif_alloc_track(0);
 	if (info) {
-	    if (rc != 0 && *perrno != EINVAL) printf("I skip\n");
+	    if (rc != 0 && *perrno != EINVAL) printf("I skip %s %d\n", ecls(*perrno), *perrno);
 	    else printf("I %ld %d\n", verif_alloc_count, trl);
 	}
     } else if (op[0] == 'F') {
@@ -311,6 +313,23 @@ int main(int argc, char **argv)
 	    continue;
 	}
 	if (vcp == NULL) { printf("R SKIP E0 0 0 | |\n"); continue; }
+	if (!strcmp(op, "V")) {
+	    /* C side only: the solved error terms of handle h (are they finite, their values to 9 digits) */
+	    int h = ntok > 2 ? atoi(tok[2]) : -1;
+	    vnacal_new_t *v = (h >= 0 && h < nh) ? hv[h] : NULL;
+	    if (v == NULL || v->vn_calibration == NULL) { printf("D none\n"); continue; }
+	    vnacal_calibration_t *calp = v->vn_calibration;
+	    int finite = 1;
+	    printf("D");
+	    for (int t = 0; t < calp->cal_error_terms; ++t)
+		for (int f = 0; f < calp->cal_frequencies; ++f) {
+		    double complex z = calp->cal_error_term_vector[t][f];
+		    if (!isfinite(creal(z)) || !isfinite(cimag(z))) finite = 0;
+		    printf(" %.9g,%.9g", creal(z) + 0.0, cimag(z) + 0.0);
+		}
+	    printf(" finite=%d\n", finite);
+	    continue;
+	}
 	/* the argument class, from a child that runs the same op without fault */
 	fflush(stdout);
 	pid_t pid = fork();
